@@ -2,15 +2,60 @@
 
 package reader
 
-// arbitrary reader reachable from NewReader(orig) by consuming cnt octets
+// C19 — the byte reader never reads outside its buffer and accounts exactly.
+//
+// Every harness starts from an ARBITRARY reader state that NewReader(orig) followed by
+// any sequence of operations can reach: data = orig[cnt:], count = cnt, 0 <= cnt <= len(orig).
+// One operation is executed on the real code and the contract is asserted; because the
+// post-state again satisfies the same representation invariant, sequences of any length
+// follow by induction (DESIGN.md, C19).
+
 func verifArbReader() (r *Reader, orig []byte, cnt int) {
 	n := verifNondetInt()
-	verifAssume(n >= 0 && n < 1<<40)
+	verifAssume(verifAll(n >= 0, n < 1<<40))
 	orig = verifNondetBytes(n)
 	cnt = verifNondetInt()
-	verifAssume(cnt >= 0 && cnt <= n)
-	r = &Reader{data: orig[cnt:], count: cnt}
+	verifAssume(verifAll(cnt >= 0, cnt <= n))
+	// the state NewReader(orig) reaches after consuming cnt octets
+	r = NewReader(orig)
+	r.data = r.data[cnt:]
+	r.count = cnt
 	return
+}
+
+// invariant: remaining slice is exactly orig[count:], consumed+remaining = len(orig)
+func verifInv(r *Reader, orig []byte, wantCount int, msg string) {
+	verifAssert(r.ReadCount() == wantCount, msg+": consumed count")
+	verifAssert(r.Len() == len(orig)-wantCount, msg+": remaining length")
+	verifAssert(r.Len()+r.ReadCount() == len(orig), msg+": consumed+remaining=len")
+	// the remaining window is still the tail of the original buffer
+	j := verifNondetInt()
+	verifAssume(verifAll(j >= 0, j < r.Len()))
+	verifAssert(verifAt(r.data, j) == verifAt(orig, wantCount+j), msg+": window is the tail of the buffer")
+}
+
+func VerifReaderNew() {
+	n := verifNondetInt()
+	verifAssume(verifAll(n >= 0, n < 1<<40))
+	orig := verifNondetBytes(n)
+	r := NewReader(orig)
+	verifInv(r, orig, 0, "NewReader")
+	verifReach("end")
+}
+
+func VerifReaderUint8() {
+	r, orig, cnt := verifArbReader()
+	l0 := r.Len()
+	v, err := r.Uint8()
+	if l0 >= 1 {
+		verifAssert(err == nil, "Uint8 must succeed when 1 octet remains")
+		verifAssert(v == verifAt(orig, cnt), "Uint8 value")
+		verifInv(r, orig, cnt+1, "Uint8 ok")
+	} else {
+		verifAssert(err != nil, "Uint8 must fail on an empty reader")
+		verifInv(r, orig, cnt, "Uint8 fail")
+	}
+	verifReach("end")
 }
 
 func VerifReaderUint16() {
@@ -18,14 +63,48 @@ func VerifReaderUint16() {
 	l0 := r.Len()
 	v, err := r.Uint16()
 	if l0 >= 2 {
-		verifAssert(err == nil, "must succeed when 2 octets remain")
-		verifAssert(v == uint16(orig[cnt])<<8|uint16(orig[cnt+1]), "big-endian value")
-		verifAssert(r.Len() == l0-2 && r.ReadCount() == cnt+2, "advance by 2")
+		verifAssert(err == nil, "Uint16 must succeed when 2 octets remain")
+		verifAssert(v == uint16(verifAt(orig, cnt))<<8|uint16(verifAt(orig, cnt+1)), "Uint16 big-endian value")
+		verifInv(r, orig, cnt+2, "Uint16 ok")
 	} else {
-		verifAssert(err != nil, "must fail when fewer than 2 octets remain")
-		verifAssert(r.Len() == l0 && r.ReadCount() == cnt, "failed read leaves position unchanged")
+		verifAssert(err != nil, "Uint16 must fail when fewer than 2 octets remain")
+		verifInv(r, orig, cnt, "Uint16 fail")
 	}
-	verifAssert(r.Len()+r.ReadCount() == len(orig), "consumed+remaining=len")
+	verifReach("end")
+}
+
+func VerifReaderUint32() {
+	r, orig, cnt := verifArbReader()
+	l0 := r.Len()
+	v, err := r.Uint32()
+	if l0 >= 4 {
+		verifAssert(err == nil, "Uint32 must succeed when 4 octets remain")
+		want := uint32(verifAt(orig, cnt))<<24 | uint32(verifAt(orig, cnt+1))<<16 | uint32(verifAt(orig, cnt+2))<<8 | uint32(verifAt(orig, cnt+3))
+		verifAssert(v == want, "Uint32 big-endian value")
+		verifInv(r, orig, cnt+4, "Uint32 ok")
+	} else {
+		verifAssert(err != nil, "Uint32 must fail when fewer than 4 octets remain")
+		verifInv(r, orig, cnt, "Uint32 fail")
+	}
+	verifReach("end")
+}
+
+func VerifReaderUint64() {
+	r, orig, cnt := verifArbReader()
+	l0 := r.Len()
+	v, err := r.Uint64()
+	if l0 >= 8 {
+		verifAssert(err == nil, "Uint64 must succeed when 8 octets remain")
+		want := uint64(0)
+		for i := 0; i < 8; i++ {
+			want = want<<8 | uint64(verifAt(orig, cnt+i))
+		}
+		verifAssert(v == want, "Uint64 big-endian value")
+		verifInv(r, orig, cnt+8, "Uint64 ok")
+	} else {
+		verifAssert(err != nil, "Uint64 must fail when fewer than 8 octets remain")
+		verifInv(r, orig, cnt, "Uint64 fail")
+	}
 	verifReach("end")
 }
 
@@ -33,25 +112,81 @@ func VerifReaderRead() {
 	r, orig, cnt := verifArbReader()
 	l0 := r.Len()
 	n := verifNondetInt()
-	verifAssume(n >= 0)
+	verifAssume(n >= 0) // "a read of n octets": n is a count (see DESIGN.md C19, negative n)
 	b, err := r.Read(n)
 	if n <= l0 {
-		verifAssert(err == nil, "must succeed")
-		verifAssert(len(b) == n, "returns n octets")
+		verifAssert(err == nil, "Read must succeed when n octets remain")
+		verifAssert(len(b) == n, "Read returns n octets")
 		j := verifNondetInt()
-		verifAssume(j >= 0 && j < n)
-		verifAssert(b[j] == orig[cnt+j], "returns exactly the next n octets")
-		verifAssert(r.Len() == l0-n && r.ReadCount() == cnt+n, "advance by n")
+		verifAssume(verifAll(j >= 0, j < n))
+		verifAssert(verifAt(b, j) == verifAt(orig, cnt+j), "Read returns exactly the next n octets")
+		verifInv(r, orig, cnt+n, "Read ok")
 	} else {
-		verifAssert(err != nil, "must fail")
-		verifAssert(r.Len() == l0 && r.ReadCount() == cnt, "unchanged")
+		verifAssert(err != nil, "Read must fail when fewer than n octets remain")
+		verifInv(r, orig, cnt, "Read fail")
 	}
-	verifAssert(r.Len()+r.ReadCount() == len(orig), "consumed+remaining=len")
 	verifReach("end")
 }
 
+func VerifReaderPeek() {
+	r, orig, cnt := verifArbReader()
+	l0 := r.Len()
+	n := verifNondetInt()
+	verifAssume(n >= 0)
+	b, err := r.Peek(n)
+	if n <= l0 {
+		verifAssert(err == nil, "Peek must succeed when n octets remain")
+		verifAssert(len(b) == n, "Peek returns n octets")
+		j := verifNondetInt()
+		verifAssume(verifAll(j >= 0, j < n))
+		verifAssert(verifAt(b, j) == verifAt(orig, cnt+j), "Peek returns exactly the next n octets")
+	} else {
+		verifAssert(err != nil, "Peek must fail when fewer than n octets remain")
+	}
+	verifInv(r, orig, cnt, "Peek never advances")
+	verifReach("end")
+}
+
+func VerifReaderPeekUint16() {
+	r, orig, cnt := verifArbReader()
+	l0 := r.Len()
+	v, err := r.PeekUint16()
+	if l0 >= 2 {
+		verifAssert(err == nil, "PeekUint16 must succeed when 2 octets remain")
+		verifAssert(v == uint16(verifAt(orig, cnt))<<8|uint16(verifAt(orig, cnt+1)), "PeekUint16 big-endian value")
+	} else {
+		verifAssert(err != nil, "PeekUint16 must fail when fewer than 2 octets remain")
+	}
+	verifInv(r, orig, cnt, "PeekUint16 never advances")
+	verifReach("end")
+}
+
+// Two operations in sequence from an arbitrary state (a sanity check of the induction
+// argument on the real code rather than on paper): read k octets, then a Uint16.
+func VerifReaderSeq() {
+	r, orig, cnt := verifArbReader()
+	k := verifNondetInt()
+	verifAssume(verifAll(k >= 0, k <= r.Len()))
+	_, err := r.Read(k)
+	verifAssert(err == nil, "first read succeeds")
+	l1 := r.Len()
+	v, err2 := r.Uint16()
+	if l1 >= 2 {
+		verifAssert(err2 == nil, "second read succeeds")
+		verifAssert(v == uint16(verifAt(orig, cnt+k))<<8|uint16(verifAt(orig, cnt+k+1)), "second read sees the octets after the first")
+		verifInv(r, orig, cnt+k+2, "Seq ok")
+	} else {
+		verifAssert(err2 != nil, "second read fails")
+		verifInv(r, orig, cnt+k, "Seq fail")
+	}
+	verifReach("end")
+}
+
+// Informational (not part of the property): Read/Peek with a negative n panic.
 func VerifReaderReadNeg() {
 	r, _, _ := verifArbReader()
 	n := verifNondetInt()
+	verifAssume(n < 0)
 	r.Read(n)
+	verifReach("end")
 }
